@@ -1,9 +1,10 @@
 (* Extraction of the C04 model for the correspondence driver.  ExtrOcamlBasic and
    ExtrOcamlString only: N, Z, positive, nat stay the extracted inductive datatypes. *)
-From SV Require Import Base.Prelude Model.Ring Model.Replicas.
+From SV Require Import Base.Prelude Model.Tablets Model.TabletSets Model.Ring Model.Replicas.
 Require Extraction.
 Require Import ExtrOcamlBasic ExtrOcamlString.
 Extraction Language OCaml.
 Extraction "../ocaml/c04/model.ml" sort_ring assoc_opt replicas_for rs_len rs_iter rs_nth rs_choose
   rs_ordered spec_replicas list_eqb same_set subset nodupb mem tokens_distinct dc_tokens_distinct
-  ring_dcs in_dc rs_run list_run placement_ok ordered_ok.
+  ring_dcs in_dc rs_run list_run placement_ok ordered_ok computed_shard with_shards assoc_pair rs_run_hints rs_ordered_hint
+  from_raw_tablet add_tablet tt_empty ts_for ts_len ts_iter ts_nth ts_choose ts_ordered ts_run.
